@@ -76,6 +76,7 @@ def gen_cases(r: Run):
         cases.append(dict(op=op, origin=l[0][0], peaks=l, args=a, exact=True, kind="corpus"))
     cases.append(dict(op="eq", a=base, b=base[:2], oa=Fraction(0), ob=Fraction(0), kind="corpus"))
     cases.append(dict(op="eq", a=base, b=[], oa=Fraction(0), ob=Fraction(0), kind="corpus"))
+    import math
     nlists = 400 if thorough else 60
     # lengths and magnitudes named by new literals of the changed code: lists of d-1, d, d+1 peaks; totals of about f/4, f, 4f
     from . import common as _c
@@ -108,6 +109,14 @@ def gen_cases(r: Run):
         add("shift", [Fraction(rng.randint(-1000 * 64, 1000 * 64), 64)])
         add("cshift", [Fraction(rng.randint(-1000 * 64, 1000 * 64), 64)])
         add("droplast", [])
+        cums, acc_ = [], Fraction(0)
+        for _, i_ in l:
+            acc_ += i_
+            cums.append(acc_)
+        for cj in (cums[0], cums[len(cums) // 2]):
+            fc = float(cj)
+            if Fraction(fc) == cj and 0 < fc < 1e300:
+                ths = ths + [Fraction(math.nextafter(fc, math.inf)), Fraction(math.nextafter(fc, 0.0))]
         for t in ths:
             add("trunc", [t])
             # on a list that sums to exactly 1 normalisation is the identity in f64 as well, so a threshold
@@ -116,6 +125,14 @@ def gen_cases(r: Run):
         its = sorted(set(i for _, i in l))
         igs = [Fraction(0), its[0], its[-1], its[-1] * Fraction(1025, 1024), its[len(its) // 2],
                (its[0] + its[-1]) / 2, Fraction(-1)]
+        # thresholds ONE floating-point step above / below an intensity (exact doubles: the decision is not a matter of
+        # rounding) — a filter with "a little slack" keeps or drops the wrong peak here
+        import math
+        for base in (its[0], its[len(its) // 2], its[-1]):
+            fb = float(base)
+            if Fraction(fb) == base and 0 < fb < 1e300:
+                igs += [Fraction(math.nextafter(fb, math.inf)), Fraction(math.nextafter(fb, 0.0)),
+                        Fraction(math.nextafter(math.nextafter(fb, math.inf), math.inf))]
         for t in igs:
             add("ignore", [t])
         for _ in range(6 if thorough else 3):
